@@ -34,6 +34,7 @@
 #include <stdio.h>
 #include <stdlib.h>
 #include <string.h>
+#include <pthread.h>
 #ifdef LIBERASURECODE_VERIF
 #include "erasurecode_verif.h"
 #else
@@ -52,12 +53,16 @@ int *log_table = NULL;
 int *ilog_table = NULL;
 int *ilog_table_begin = NULL;
 static int init_counter = 0;
+/* the tables are shared by all instances: (de)initialisation is serialised */
+static pthread_mutex_t init_lock = PTHREAD_MUTEX_INITIALIZER;
 
 void rs_galois_init_tables(void)
 {
+  pthread_mutex_lock(&init_lock);
   VERIF_ACCESS_W(&init_counter, "galois.counter:init");
   if (init_counter++ > 0) {
     /* already initialized */
+    pthread_mutex_unlock(&init_lock);
     return;
   }
   VERIF_ACCESS_W(&log_table, "galois.tables:init-alloc");
@@ -79,10 +84,12 @@ void rs_galois_init_tables(void)
   }
   VERIF_ACCESS_W(&log_table, "galois.tables:init-publish");
   ilog_table = &ilog_table_begin[GROUP_SIZE];
+  pthread_mutex_unlock(&init_lock);
 }
 
 void rs_galois_deinit_tables(void)
 {
+  pthread_mutex_lock(&init_lock);
   VERIF_ACCESS_W(&init_counter, "galois.counter:deinit");
   init_counter--;
   if (init_counter < 0) {
@@ -90,7 +97,6 @@ void rs_galois_deinit_tables(void)
     init_counter = 0;
   } else if (init_counter > 0) {
     /* still at least one desc using it */
-    return;
   } else {
     VERIF_ACCESS_W(&log_table, "galois.tables:deinit-free");
     free(log_table);
@@ -98,6 +104,7 @@ void rs_galois_deinit_tables(void)
     free(ilog_table_begin);
     ilog_table_begin = NULL;
   }
+  pthread_mutex_unlock(&init_lock);
 }
 
 int rs_galois_mult(int x, int y)
